@@ -23,7 +23,7 @@ RULE = ("products of <= 4 objects drawn from ERI, Coulomb integrals, "
         "and 4 virtual index names, with a prefactor and sometimes a square; "
         "targets are the Einstein targets or an explicit subset of <= 4 "
         "indices; every spin string of the targets is run.  Fixed inputs: "
-        "all single objects, the definitions of all registered "
+        "all single objects, single ERIs and their 2nd/3rd powers in all six space blocks and 16 spin patterns (expand_antisym_eri), ERI powers through the whole pipeline for every target spin string, the definitions of all registered "
         "intermediates, MP energies, the four inputs of the repaired defects and the seeded-defect example W_bdef (corpus).  _has_valid_combination: random lists of 2-5 objects with 1-4 candidate maps over 1-3 of 6 indices, 70% with a hidden solution behind decoys; brute-force stream: products of 3-5 tabled objects, 2-4 targets.  A case is "
         "non-trivial if the term has at least one contracted index or at "
         "least two objects with a block table; distinct = distinct "
@@ -236,6 +236,20 @@ def fixed_cases():
              False),
         Case("sentinel:delta_ij*f_ab", KroneckerDelta(i, j) * f(a, b),
              [i, a, j, b], True),
+        # ERI powers (seeded defect: sign of an exchange-only block pulled out
+        # of an even power); every spin string is run in the pipeline stage
+        Case("eri-power:V_iajb^2", V((i, a), (j, b)) ** 2, [i, a, j, b],
+             True),
+        Case("eri-power:V_ijka^2", V((i, j), (k, a)) ** 2 / 2,
+             [i, j, k, a], True),
+        Case("eri-power:V_iabc^2", V((i, a), (b, c)) ** 2, [i, a, b, c],
+             True),
+        Case("eri-power:V_iajb^3", V((i, a), (j, b)) ** 3, [i, a, j, b],
+             True),
+        Case("eri-power:V_iajb^2-contracted", V((i, a), (j, b)) ** 2,
+             [i, j], True),
+        Case("eri-power:V_ijab^2", V((i, j), (a, b)) ** 2, [i, j, a, b],
+             True),
         Case("D-alone", D, [i, j, a, b], True),
         Case("e-alone", e(i), [i], True),
         Case("f-X", f(i, a) * Amplitude("X", (a,), (j,)), [i, j], True),
@@ -478,12 +492,45 @@ def all_idx_list(pterms_list):
     return out
 
 
-def stage_expand(ctx):
+def expand_value_check(sym_in, sym_out, tabs, seeds=(21, 22)):
+    """value of a spin-labelled expression before / after expand_antisym_eri
+    on models with <pq||rs> = dd(pr|qs) - dd(ps|qr), every index a target;
+    returns a replay dict of the first difference or None"""
+    ictx = adcio.IdxCtx()
+    try:
+        p_in = adcio.conv_expr(sym_in, ictx)
+        p_out = adcio.conv_expr(sym_out, ictx)
+    except adcio.Unsupported:
+        return None
+    tg = all_idx_list([p_in, p_out])
+    if any(not x.spin for x in tg) or len(tg) > 8:
+        return None
+    for seed in seeds:
+        model = U.spin_model(seed, 1 if seed % 2 else 2, tabs,
+                             eri_from_coulomb=True)
+        ranges = [model.rng(x.space, x.spin) for x in tg]
+        combos = list(itertools.islice(itertools.product(*ranges), 64))
+        for combo in combos:
+            env = dict(zip(tg, combo))
+            try:
+                v1 = model.eval_expr(p_in, env)
+                v2 = model.eval_expr(p_out, env)
+            except ZeroDivisionError:
+                continue
+            if v1 != v2:
+                return {"model_seed": seed,
+                        "orbitals": {repr(k): v for k, v in env.items()},
+                        "value_antisym_eri": v1, "value_expanded": v2,
+                        "prime": numeric.P}
+    return None
+
+
+def stage_expand(ctx, tabs):
     """C: expand_antisym_eri == model (syntactic, modulo canonical forms)"""
     rng = ctx.rng
     names = {"o": "ij", "v": "ab"}
     inputs = []
-    for pat in ("oovv", "ovov", "oooo"):
+    for pat in ("oovv", "ovov", "oooo", "ooov", "ovvv", "vvvv"):
         for spins in itertools.product("ab", repeat=4):
             ix = []
             cnt = {"o": 0, "v": 0}
@@ -493,6 +540,9 @@ def stage_expand(ctx):
                 ix.append(get_symbols(nm, s)[0])
             V = AntiSymmetricTensor("V", tuple(ix[:2]), tuple(ix[2:]), 1)
             inputs.append((f"V-{pat}-{''.join(spins)}", V))
+            # powers: the power of the signed Coulomb expansion
+            inputs.append((f"V^2-{pat}-{''.join(spins)}", V ** 2))
+            inputs.append((f"V^3-{pat}-{''.join(spins)}", 2 * V ** 3))
     ia, ja, aa, ba = get_symbols("ijab", "aaaa")
     ib, jb, ab_, bb = get_symbols("ijab", "bbbb")
     kb, cb = get_symbols("kc", "bb")
@@ -536,14 +586,23 @@ def stage_expand(ctx):
         ctx.case(key=("expand", str(sym)), nontrivial=True, kind="expand_eri",
                  sample={"label": label, "in": str(sym)[:200],
                          "out": str(py[1])[:200]})
+        bad = None
+        if py[0] == "ok":
+            bad = expand_value_check(sym, py[1], tabs)
+            ctx.obligation(f"value of expand_antisym_eri {label}",
+                           bad is None, str(bad))
         if not ctx.obligation(f"expand_antisym_eri == model {label}", same,
-                              f"python {py} model {mv}"):
+                              f"python {py} model {mv}") or bad is not None:
             ctx.violation(f"C15:expand-eri:{label}",
                           "expand_antisym_eri differs from the model "
-                          "expand_eri_expr (Models/Spin.v)",
+                          "expand_eri_expr (Models/Spin.v)"
+                          + (" and in value from the antisymmetrised "
+                             "integrals" if bad else ""),
                           {"input": str(sym), "python": str(py),
-                           "model_accepts": str(mv),
-                           "correspondence": "expand_eri_expr"}, False)
+                           "model_accepts": str(mv), "difference": bad,
+                           "correspondence": "expand_eri_expr",
+                           "theorem": "C15_eri_expand_value_partial"},
+                          bad is not None)
 
 
 def brute_blocks(E, names):
@@ -934,7 +993,7 @@ def stage_pipeline(ctx, tabs, cases, quick):
                if not o.sympy.is_number and hasattr(o, "name")):
             continue
         sps = spin_strings(len(cs.targets))
-        if len(sps) > 4:
+        if len(sps) > 4 and not cs.label.startswith("eri-power"):
             sps = rng.sample(sps, 4)
             if cs.label.startswith("sentinel"):
                 sps = ["b" * len(cs.targets)] + sps[:2]
@@ -1024,13 +1083,22 @@ def stage_pipeline(ctx, tabs, cases, quick):
                          "out": str(py[1])[:200]})
         if not ctx.obligation(f"transform {mode} == model {label}", same,
                               f"python {str(py)[:300]} model {mv}"):
+            bad = None
+            if py[0] == "ok":       # failing-input search
+                bad = value_check(ctx, cs, spins, py[1], tabs,
+                                  restricted=restricted,
+                                  eri_from_coulomb=expand)
             ctx.violation(
                 vkey(cs, f"C15:transform:{cs.label}:{spins}:{mode}"),
                 "transform_to_spatial_orbitals differs from the model "
-                "(expand_eri_expr / restrict_expr)",
+                "(expand_eri_expr / restrict_expr)"
+                + (" and in value from the spin-orbital expression"
+                   if bad else ""),
                 {"term": str(cs.sym), "targets": cs.names, "spins": spins,
-                 "mode": mode, "python": str(py)[:1000],
-                 "model_accepts": str(mv)}, False)
+                 "mode": mode,
+                 "python": str(getattr(py[1], "sympy", py[1]))[:1000],
+                 "model_accepts": str(mv), "difference": bad},
+                bad is not None)
             continue
         if py[0] != "ok":
             continue
@@ -1072,7 +1140,7 @@ def run(ctx):
     stage_tables(ctx, tabs, failed, info)
     cases = fixed_cases() + gen_cases(ctx, 120 if quick else 600)
     stage_integrate(ctx, tabs, cases)
-    stage_expand(ctx)
+    stage_expand(ctx, tabs)
     stage_expr_blocks(ctx, tabs, quick)
     stage_blocks_bruteforce(ctx, tabs, quick)
     stage_hvc(ctx, quick)
